@@ -300,6 +300,7 @@ func model(m Member, recv hs.Value, args []Arg) mres {
 type prog struct {
 	lines []string
 	exp   []string
+	noSet bool // useDeep: do not change any-objects
 }
 
 func (p *prog) stmt(f string, a ...any)   { p.lines = append(p.lines, fmt.Sprintf(f, a...)) }
